@@ -10,6 +10,7 @@
    owner ::= () the connection | (q) the proxy of getRemoteObject request q
    optional 6th argument: ((<cb> (<action> ...)) ...)   what callbacks do when they run during the loss
    action ::= (0 <timeout: () | (n)>) call | (1 <owner> <cb>) register | (2 <owner> <cb>) cancel
+            | (3 <key> <cb: () | (n)>) getRemoteObject with explicit interfaces, optionally a callback on the new proxy
    mode (2nd argument): 0 current tree | 1 before D12/D13 (callbacks passive) | 2 before D62/D63
    Answer: ((<step> ...) <spec connect outcome: () | (0) ready | (1) failed> <final phase code>
             <fired by connect() itself> (<completion when every armed timer is let run at the end> ...))
@@ -99,6 +100,7 @@ Definition action_of (s : sexp) : option action :=
   | SList [SNum 0; t] => option_map ACall (as_opt as_N t)
   | SList [SNum 1; o; SNum cb] => option_map (fun o => AReg o (Z.to_N cb)) (owner_of o)
   | SList [SNum 2; o; SNum cb] => option_map (fun o => ACancel o (Z.to_N cb)) (owner_of o)
+  | SList [SNum 3; SNum key; cb] => option_map (AMkProxy (Z.to_N key)) (as_opt as_N cb)
   | _ => None
   end.
 
